@@ -88,6 +88,18 @@ def gotoWith (ix : List Def) (imp : Path → String → Bool) (us : List Usage)
     | none => none
     | some u => resolveUsage ix imp u
 
+/-- `find_fixture_at_position` once the line text has yielded `word`: a usage span under the
+    cursor wins; otherwise a fixture defined on that line whose name is the word under the cursor. -/
+def fixtureAtWith (ix : List Def) (us : List Usage) (f : Path) (line0 col : Nat)
+    (word : Option String) : Option String :=
+  match us.find? (fun u => u.line == line0 + 1 && u.startChar ≤ col && col < u.endChar) with
+  | some u => some u.name
+  | none =>
+    match word with
+    | none => none
+    | some w =>
+      if ix.any (fun d => d.file == f && d.line == line0 + 1 && d.name == w) then some w else none
+
 /-- `find_references_for_definition` over `usage_by_fixture` (`ubf`, global push order). -/
 def refsFor (ix : List Def) (imp : Path → String → Bool) (ubf : List Usage) (D : Def) : List Usage :=
   (ubf.filter (fun u => u.name == D.name)).filter (fun u => resolveUsage ix imp u == some D)
@@ -129,9 +141,14 @@ def insertByName (d : Def) : List Def → List Def
 
 def sortByName (l : List Def) : List Def := l.foldr insertByName []
 
+/-- the distinct names of a list (order irrelevant: the result is sorted afterwards) -/
+def dedup : List String → List String
+  | [] => []
+  | x :: xs => if xs.contains x then dedup xs else x :: dedup xs
+
 /-- `compute_available_fixtures`: one entry per name, sorted by name. -/
 def available (ix : List Def) (cimp : Path → String → Bool) (f : Path) : List Def :=
-  sortByName (((ix.map (·.name)).eraseDups).filterMap (fun n => availPick ix cimp f n))
+  sortByName ((dedup (ix.map (·.name))).filterMap (fun n => availPick ix cimp f n))
 
 /-! ### `resolve_fixture_for_file` (call hierarchy) -/
 
